@@ -24,6 +24,7 @@ The expected verdict is computed by the extracted Coq model:
 from props._world import WorldGen
 
 MAXI = 2 ** 31 - 1
+BASE_TIME = 1700000000    # world.hpp: the registry's mocked clock starts here and ticks once per mining operation
 TABLE = [100, 100, 95, 89, 80, 69, 56, 40, 21]    # AltChainParams default (checked against Gen/ScoreParams.v by C03.py)
 
 
@@ -42,6 +43,7 @@ class Pair:
         self.fork_h = self.hA = self.hB = 0
         self.viewA = self.viewB = None
         self.kind = "duel"
+        self.ktx = []          # (key, ta, chain timestamps, keystone time, block-of-proof heights, expected) per keystone
         self.marks = {}        # name -> line index of the interesting answers
         self.stats = {}
 
@@ -62,7 +64,43 @@ def gen_pair(rng, kind="duel", fixed=None):
     if fixed:
         cfg = dict(fixed["cfg"])
         ki, fd, settle = cfg["alt_ki"], cfg["alt_fd"], cfg["alt_settle"]
+    ta = (not fixed) and kind == "duel" and r.chance(1, 2)
+    if fixed:
+        ta = bool(cfg.get("ta", 0))
+    if ta:
+        # the SP (VBK) parameters report EnableTimeAdjustment() == true; ALT blocks get explicit timestamps
+        # around those of the VBK blocks (BASE_TIME + number of mining operations so far)
+        cfg["ta"] = 1
+        ts_c, ts_d = r.choice([1, 1, 2, 2, 3]), r.range(0, 12)    # ALT time = BASE_TIME + ts_d + ts_c * (height - fork height)
+        if fixed:
+            ts_c, ts_d = fixed.get("ts_c", 2), fixed.get("ts_d", 0)
     g = WorldGen(r, cfg)
+    vts = {}                   # vbk id -> timestamp (mirror of the miner: max(parent time, mocked clock))
+    ticks = [0]
+
+    def new_alt(parent):
+        if not ta:
+            return g.new_alt(parent)
+        aid = "a%d" % g.na
+        g.na += 1
+        p_ = g.alt[parent]
+        h_ = p_["height"] + 1
+        g.alt[aid] = dict(parent=parent, height=h_, ctx=[], vtbs=[], atvs=[], kv=set(p_["kv"]), kb=set(p_["kb"]),
+                          haspd=False, ts=BASE_TIME + ts_d + ts_c * (h_ - T))
+        g.emit("altts %s %s %x" % (aid, parent, g.alt[aid]["ts"]), "ok")
+        return aid
+
+    def mine_vbk(parent):
+        ticks[0] += 1
+        v = g.mine_vbk(parent)
+        vts[v] = max(vts.get(parent, 0), BASE_TIME + ticks[0])
+        return v
+
+    def make_atv(e, vparent):
+        ticks[0] += 1
+        t_ = g.make_atv(e, vparent=vparent)
+        vts[g.atv[t_]["bop"]] = max(vts.get(vparent, 0), BASE_TIME + ticks[0])
+        return t_
     P = Pair()
     P.cfg = cfg
     P.kind = kind
@@ -73,7 +111,7 @@ def gen_pair(rng, kind="duel", fixed=None):
     trunk = []
     cur = "a0"
     for _ in range(T):
-        cur = g.new_alt(cur)
+        cur = new_alt(cur)
         trunk.append(cur)
     fork = cur
     fh = g.alt[fork]["height"]
@@ -97,7 +135,7 @@ def gen_pair(rng, kind="duel", fixed=None):
         b = []
         cur = fork
         for _ in range(L):
-            cur = g.new_alt(cur)
+            cur = new_alt(cur)
             b.append(cur)
         branches.append(b)
     A, B = branches
@@ -153,22 +191,26 @@ def gen_pair(rng, kind="duel", fixed=None):
 
     def grow(h):
         while len(main) - 1 < h:
-            main.append(g.mine_vbk(main[-1]))
+            main.append(mine_vbk(main[-1]))
     atvs_of = {}
     nfork = 0
     for bi, e, c, tgt, losing in plan:
         if losing and tgt >= 2:
             # block of proof on a one-block side fork at height tgt; the main chain is (made) longer
             grow(tgt)
-            tid = g.make_atv(e, vparent=main[tgt - 1])
+            tid = make_atv(e, main[tgt - 1])
             nfork += 1
         else:
             grow(max(tgt - 1, len(main) - 1))
-            tid = g.make_atv(e, vparent=main[-1])
+            tid = make_atv(e, main[-1])
             main.append(g.atv[tid]["bop"])
         atvs_of.setdefault(c, []).append(tid)
     grow(len(main) + 1)           # the main chain ends strictly above every fork block
     final_v = main[-1]
+    if ta:
+        for v in sorted(vts, key=lambda x: int(x[1:])):
+            g.emit("vts %s" % v, "%x" % vts[v])      # the mirror of the miner's timestamps is checked, not trusted
+    chain_ts = [vts.get(v, 0) for v in main]         # best VBK chain of the instance at comparison time, by height
     # ---- bodies, parents first; the last block of either branch carries the context up to the main VBK tip ----
     for x in trunk:
         g.set_pd(x)
@@ -186,8 +228,11 @@ def gen_pair(rng, kind="duel", fixed=None):
         inbr = set(br)
         out = []
         k = (fh // ki + 1) * ki
+        byh = {g.alt[x]["height"]: x for x in br}
         while k <= tip_h:
             best = None
+            hs = []
+            T = g.alt[byh[k]].get("ts", 0)            # pkc.timestampOfEndorsedBlock = time of the keystone block
             for x in br:
                 for tid in g.alt[x]["atvs"]:
                     a = g.atv[tid]
@@ -199,14 +244,29 @@ def gen_pair(rng, kind="duel", fixed=None):
                     if a["bop"] not in on_main:
                         continue
                     h = g.vbk[a["bop"]]["height"]
+                    hs.append(h)
+                    if ta and not (T < chain_ts[h]):
+                        # time adjustment: the first later block of the best chain with a greater timestamp
+                        adj = None
+                        for j in range(h + 1, len(chain_ts)):
+                            if T < chain_ts[j]:
+                                adj = j
+                                break
+                        if adj is None:
+                            continue
+                        P.stats_adj[0] += 1
+                        h = adj
                     best = h if best is None else min(best, h)
+            if ta:
+                P.ktx.append(["k%d" % len(P.ktx), 1, list(chain_ts), T, sorted(set(hs)), best])
             out.append(best)
             k += ki
         return out
+    P.stats_adj = [0]
     P.fork, P.tipA, P.tipB = fork, tipA, tipB
     P.fork_h, P.hA, P.hB = fh, g.alt[tipA]["height"], g.alt[tipB]["height"]
     P.viewA, P.viewB = view(A), view(B)
-    P.stats = {"atvs": len(plan), "losing_fork_bops": nfork, "vbk_blocks": len(g.vbk), "crossA": len(P.viewA),
+    P.stats = {"ta": int(ta), "adjusted": P.stats_adj[0], "atvs": len(plan), "losing_fork_bops": nfork, "vbk_blocks": len(g.vbk), "crossA": len(P.viewA),
                "crossB": len(P.viewB), "lenA": len(A), "lenB": len(B), "ki": ki, "fd": fd}
     # ---- the two instances ----
     def mark(name):
@@ -257,10 +317,15 @@ def model_lines(P, cid):
     """lines for the Score model: core as coded, proved spec sign (inf reading)"""
     fd, ki = P.cfg["alt_fd"], P.cfg["alt_ki"]
     tb = ",".join(hx(x) for x in TABLE)
-    return [
+    out = [
         "%s.core cmp %s %s %s %s %s %s" % (cid, hx(fd), tb, hx(ki), hx(ki), slots_real(P.viewA), slots_real(P.viewB)),
         "%s.spec spec inf %s %s %s %s" % (cid, hx(fd), tb, slots_prof(P.viewA), slots_prof(P.viewB)),
     ]
+    # getKeystoneContext as coded (extracted Coq ktx / ktx_spec) must agree with the Python computation of each slot
+    for key, ta, chain, T, hs, _ in P.ktx:
+        out.append("%s.%s ktx %d %s %s %s" % (cid, key, ta, ",".join(hx(x) for x in chain) or "-", hx(T),
+                                              ",".join(hx(h) for h in hs) or "-"))
+    return out
 
 
 def outer_line(P, cid, core):
@@ -375,6 +440,11 @@ def run_pairs(vlib, ctx, model, harness, pairs, tag, chunk=150, workers=4):
             continue
         if str(core[0]) != spec:
             rec["status"], rec["why"] = "model", "extracted impl sign %d differs from extracted spec sign %s" % (core[0], spec)
+            continue
+        kbad = [(k[0], k[5], mres.get("p%d.%s" % (i, k[0]))) for k in P.ktx
+                if mres.get("p%d.%s" % (i, k[0])) != "%s %s" % (("n" if k[5] is None else hx(k[5])),) * 2]
+        if kbad:
+            rec["status"], rec["why"] = "model", "publication slot computed by props/_score.py differs from the extracted ktx: %r" % (kbad[0],)
             continue
         ov = int(outer, 16)
         exp = (ov > 0) - (ov < 0)
